@@ -138,58 +138,59 @@ def r3(tree, rep):
     rep.check("C07.R3", "_check_and_remove is stateless apart from the receive buffer (self attributes used: %s)" % sorted(attrs),
               attrs == {"buf"}, site(fn, TR), key="C07.R3:stateless",
               what="the handshake comparison depends on state carried across calls (%s): bytes can escape comparison" % sorted(attrs - {"buf"}))
-    g = build(fn)
-    raises = g.nodes(lambda s: isinstance(s, ast.Raise))
-    # divergence test: buf.startswith(expected[:len(buf)]) (or the symmetric spelling)
-    def is_prefix_test(t):
-        neg = False
-        while isinstance(t, ast.UnaryOp) and isinstance(t.op, ast.Not):
-            neg = not neg
-            t = t.operand
+    from ..cfg import truthy_atom, cmp_atom, ge_atom
+    g = build(fn, split=True)
+    rs = lambda e: expand(fn, e) if isinstance(e, ast.Name) and e.id != p[0] else e       # locals such as received = len(self.buf)
+    buf = lambda x: is_self_attr(rs(x), "buf")
+    exp = lambda x: isinstance(rs(x), ast.Name) and rs(x).id == p[0]
+
+    def head_of(x, base, other):
+        """x is base[:len(other)]"""
+        x = rs(x)
+        if not (isinstance(x, ast.Subscript) and isinstance(x.slice, ast.Slice) and x.slice.lower is None and x.slice.step is None
+                and x.slice.upper is not None and base(x.value)):
+            return False
+        u = rs(x.slice.upper)
+        return isinstance(u, ast.Call) and dotted(u.func) == "len" and len(u.args) == 1 and other(u.args[0])
+
+    def _startswith(t):
+        # buf.startswith(expected[:len(buf)])  /  expected.startswith(buf[:len(expected)])
         if isinstance(t, ast.Call) and isinstance(t.func, ast.Attribute) and t.func.attr == "startswith" and len(t.args) == 1:
             a, b = t.func.value, t.args[0]
-            def sl(x, other):
-                return isinstance(x, ast.Subscript) and isinstance(x.slice, ast.Slice) and x.slice.lower is None \
-                    and isinstance(x.slice.upper, ast.Call) and dotted(x.slice.upper.func) == "len" and same_expr(x.slice.upper.args[0], other)
-            buf = lambda x: is_self_attr(x, "buf")
-            exp = lambda x: isinstance(x, ast.Name) and x.id == p[0]
-            if buf(a) and sl(b, a) and exp(b.value):
-                return (True, neg)
-            if exp(a) and sl(b, a) and buf(b.value):
-                return (True, neg)
-        return (False, neg)
-    tests = [(n, is_prefix_test(g.stmt[n].test)) for n in g.nodes(lambda s: isinstance(s, ast.If))]
-    pt = [(n, neg) for n, (okk, neg) in tests if okk]
-    ok = len(pt) == 1
-    if ok:
-        n, neg = pt[0]
-        bad_lab = 'T' if neg else 'F'
-        ok = g.branch_always_raises(n, bad_lab) and g.must_pass([n])
+            return (buf(a) and head_of(b, exp, buf)) or (exp(a) and head_of(b, buf, exp))
+        return False
+    a_sw = truthy_atom(_startswith)
+    # buf[:len(expected)] == expected[:len(buf)]
+    a_eq = cmp_atom(lambda e: head_of(e, buf, exp), lambda e: head_of(e, exp, buf))
+    agrees = lambda e: a_sw(e) or a_eq(e)
+    ok = bool(g.cond_edges(agrees, True)) and g.when_always_raises(agrees, False) and not g.only_when([g.exit], agrees, True)
     rep.check("C07.R3", "_check_and_remove raises as soon as the buffer diverges from the expected bytes (full prefix comparison)", ok,
               site(fn, TR), key="C07.R3:divergence-raises", what="received bytes that differ from the expected handshake are not rejected")
-    lt = [n for n in g.nodes(lambda s: isinstance(s, ast.If)) if isinstance(g.stmt[n].test, ast.Compare)
-          and isinstance(g.stmt[n].test.ops[0], ast.Lt) and isinstance(g.stmt[n].test.left, ast.Call) and dotted(g.stmt[n].test.left.func) == "len"
-          and is_self_attr(g.stmt[n].test.left.args[0], "buf")]
+    is_len = lambda pred: (lambda e: isinstance(rs(e), ast.Call) and dotted(rs(e).func) == "len" and len(rs(e).args) == 1 and pred(rs(e).args[0]))
+    complete = ge_atom(is_len(buf), is_len(exp))
     rets = _ret_consts(g)
-    ok = len(lt) == 1 and True in rets and False in rets and g.branch_never_reaches(lt[0], 'T', rets[True]) \
-        and not g.guarded_by(lt, rets[True], 'F')
+    ok = True in rets and False in rets and bool(g.cond_edges(complete, False)) and not g.only_when(rets[True], complete, True)
     rep.check("C07.R3", "_check_and_remove answers True only when at least len(expected) bytes arrived (else False: keep waiting)", ok,
               site(fn, TR), key="C07.R3:complete-before-true")
     # consumption: buf = buf[len(expected):]
     cons = [n for n in ast.walk(fn) if isinstance(n, ast.Assign) and any(is_self_attr(t, "buf") for t in n.targets)]
     ok = len(cons) == 1 and isinstance(cons[0].value, ast.Subscript) and is_self_attr(cons[0].value.value, "buf") \
-        and isinstance(cons[0].value.slice, ast.Slice) and cons[0].value.slice.upper is None \
-        and isinstance(cons[0].value.slice.lower, ast.Call) and dotted(cons[0].value.slice.lower.func) == "len" \
-        and isinstance(cons[0].value.slice.lower.args[0], ast.Name) and cons[0].value.slice.lower.args[0].id == p[0]
+        and isinstance(cons[0].value.slice, ast.Slice) and cons[0].value.slice.upper is None and cons[0].value.slice.lower is not None \
+        and is_len(exp)(cons[0].value.slice.lower)
     rep.check("C07.R3", "_check_and_remove consumes exactly the matched bytes", ok, site(fn, TR), key="C07.R3:consume")
     dr = tree.func(TR, CONN, "_dataReceived")
+    gd = build(dr, split=True)
     n = 0
     for c in calls_named(dr, "self._check_and_remove"):
         n += 1
-        par = getattr(c, "_parent", None)
-        gp = getattr(par, "_parent", None)
-        ok = isinstance(par, ast.UnaryOp) and isinstance(par.op, ast.Not) and isinstance(gp, ast.If) and gp.test is par \
-            and len(gp.body) == 1 and isinstance(gp.body[0], ast.Return) and not gp.orelse
+        arrived = truthy_atom(lambda e, c=c: e is c)
+        edges = gd.cond_edges(arrived, False)
+        ok = bool(edges)
+        for (x, y, lab) in edges:
+            # "not yet": nothing else happens in this call of _dataReceived
+            for m in gd.reach([y], explicit_only=True):
+                st = gd.stmt[m]
+                ok = ok and (m == gd.exit or isinstance(st, (ast.Return, ast.Pass)))
         rep.check("C07.R3", "_dataReceived returns (keeps waiting) when _check_and_remove(%s) says not yet" % ast.unparse(c.args[0])[:30], ok,
                   site(c, TR), key="C07.R3:caller-returns:%d" % n)
     rep.check("C07.R3", "the relay reply, the peer handshake and the go line are each verified through _check_and_remove (%d sites)" % n,
@@ -253,15 +254,46 @@ def r5(tree, rep):
         ok = ok and good
     rep.check("C07.R5", "Common._connect returns only _not_forever(<deadline>, there_can_be_only_one(contenders))", ok, site(fn, TR),
               key="C07.R5:_connect:deadline", what="connect() is no longer bounded by a deadline around the whole race (it can hang)")
-    apps = [c for c in ast.walk(fn) if isinstance(c, ast.Call) and dotted(c.func) == "contenders.append"]
+    cls_node = tree.cls(TR, "Common")
+    methods = {m.name: m for m in cls_node.body if isinstance(m, ast.FunctionDef)}
+
+    def elements_of(f, name, depth=0):
+        """expressions appended to the local list `name` of f, following extend() of local lists and of lists returned
+        by methods of the same class"""
+        out = []
+        if depth > 4:
+            return out
+        for c in ast.walk(f):
+            if not (isinstance(c, ast.Call) and isinstance(c.func, ast.Attribute) and isinstance(c.func.value, ast.Name)
+                    and c.func.value.id == name and c.args):
+                continue
+            if c.func.attr == "append":
+                a0 = c.args[0]
+                if isinstance(a0, ast.Name) and local_defs(f, a0.id):
+                    out.extend(d for d in local_defs(f, a0.id) if isinstance(d, ast.AST))
+                else:
+                    out.append(a0)
+            elif c.func.attr == "extend":
+                src = c.args[0]
+                if isinstance(src, ast.Name):
+                    defs = [d for d in local_defs(f, src.id) if isinstance(d, ast.AST)]
+                    out.extend(elements_of(f, src.id, depth + 1))
+                    for d in defs:
+                        if isinstance(d, ast.Name):          # an alias of another local list
+                            out.extend(elements_of(f, d.id, depth + 1))
+                    srcs_ = [d for d in defs if isinstance(d, ast.Call)]
+                else:
+                    srcs_ = [src] if isinstance(src, ast.Call) else []
+                for d in srcs_:
+                    dn = dotted(d.func) or ""
+                    if dn.startswith("self.") and dn.split(".")[1] in methods:
+                        m = methods[dn.split(".")[1]]
+                        for r in [r for r in walk_shallow(m) if isinstance(r, ast.Return)]:
+                            if isinstance(r.value, ast.Name):
+                                out.extend(elements_of(m, r.value.id, depth + 1))
+        return out
+    cands = elements_of(fn, "contenders")
     srcs = set()
-    cands = []
-    for c in apps:
-        a0 = c.args[0]
-        if isinstance(a0, ast.Name) and local_defs(fn, a0.id):
-            cands.extend(d for d in local_defs(fn, a0.id) if isinstance(d, ast.AST))
-        else:
-            cands.append(a0)
     for a in cands:
         if is_self_attr(a, "_listener_d"):
             srcs.add("listener")
@@ -293,13 +325,14 @@ def r5(tree, rep):
     rep.check("C07.R5", "_ThereCanBeOnlyOne._succeeded cancels every remaining contender", len(loops) == 1, site(sc, TR), key="C07.R5:_succeeded:cancel",
               what="losing connections are not cancelled when a winner appears")
     md = tree.func(TR, "_ThereCanBeOnlyOne", "_maybe_done")
-    g = build(md)
-    fired_t = [n for n in g.nodes(lambda s: isinstance(s, ast.If)) if is_self_attr(g.stmt[n].test, "_fired")]
+    from ..cfg import truthy_atom
+    g = build(md, split=True)
+    fired = truthy_atom(lambda e: is_self_attr(e, "_fired"))
+    remaining = truthy_atom(lambda e: is_self_attr(e, "_remaining"))
     fired_s = g.nodes(lambda s: isinstance(s, ast.Assign) and any(is_self_attr(t, "_fired") for t in s.targets) and const(s.value) is True)
     fire = g.call_nodes(lambda c: dotted(c.func) in ("self._winner_d.callback", "self._winner_d.errback"))
-    rem_t = [n for n in g.nodes(lambda s: isinstance(s, ast.If)) if is_self_attr(g.stmt[n].test, "_remaining")]
-    ok = len(fired_t) == 1 and len(fired_s) == 1 and len(fire) == 2 and len(rem_t) == 1 \
-        and not g.guarded_by(fired_t, fire, 'F') and not g.precedes(fired_s, fire) and not g.guarded_by(rem_t, fire, 'F')
+    ok = len(fired_s) == 1 and len(fire) == 2 and not g.only_when(fire, fired, False) and not g.precedes(fired_s, fire) \
+        and not g.only_when(fire, remaining, False)
     rep.check("C07.R5", "_maybe_done fires the summary Deferred at most once, and only when no contender remains", ok, site(md, TR),
               key="C07.R5:_maybe_done:once")
     own, foreign = class_writers(tree, "_ThereCanBeOnlyOne", "_fired")
